@@ -14,7 +14,8 @@
 //@ rewrite LOOP "search_queue.extend(neighbors.into_iter());" => "search_queue.extend(neighbors);   /* neighbors.into_iter() */"
 //@ rewrite LOOP "while let Some(candidate_idx) = search_queue.pop_front() {" => "while !search_queue.is_empty() /*INVW*/ { let ghost q0 = search_queue.q@; let ghost m0 = cluster_memberships@; let candidate_idx = search_queue.pop_front().unwrap();   /* while let Some(candidate_idx) = search_queue.pop_front() */"
 //@ rewrite LOOP "for n in neighbors.into_iter() {" => "for t in 0..neighbors.len() /*INVP*/ { let n = neighbors[t]; /*HINTB*/   /* for n in neighbors.into_iter() */"
-//@ insert LOOP before "search_queue.extend(" : let ghost nb0 = neighbors@; proof { parent = Seq::new(parent.len(), |k: int| if 0 <= k < n0 && nb0.contains(k as usize) { i as int } else { parent[k] }); }
+//@ insert LOOP after "self.find_neighbors(&nn, i, observations, self.tolerance, &cluster_memberships);" : let ghost nb0 = neighbors@;   /* ghost: the seed's unlabelled neighbours */
+//@ insert LOOP before "search_queue.extend(" : proof { parent = Seq::new(parent.len(), |k: int| if 0 <= k < n0 && nb0.contains(k as usize) { i as int } else { parent[k] }); }
 //@ insert LOOP after "cluster_memberships[i] = Some(current_cluster_id);" : proof { seeds = seeds.push(i as int); assert forall|a: int| 0 <= a < search_queue.q@.len() implies parent[(#[trigger] search_queue.q@[a]) as int] == i as int by { assert(nb0.contains(nb0[a])); } }
 //@ insert LOOP after "cluster_memberships[candidate_idx] = Some(current_cluster_id);" : proof { let q1 = search_queue.q@; assert(q0[0] == candidate_idx); assert forall|a: int| 0 <= a < q1.len() implies #[trigger] q1[a] == q0[a + 1] by {} assert forall|k: int| 0 <= k < n0 && #[trigger] search_found@[k] implies q1.contains(k as usize) || cluster_memberships@[k] is Some by { if k != candidate_idx as int && !(m0[k] is Some) { assert(q0.contains(k as usize)); let a = choose|a: int| 0 <= a < q0.len() && q0[a] == k as usize; assert(a != 0); assert(q1[a - 1] == k as usize); } } assert(queue_ok(q1, cluster_memberships@, search_found@, parent, n0, mp, current_cluster_id as int)); assert(base_ok(cluster_memberships@, parent, n0, mp)); assert forall|q: int, p: int| #![trigger nbr(q, p)] 0 <= q < n0 && 0 <= p < n0 && cluster_memberships@[q] == Some(current_cluster_id) && core(q, mp) && nbr(q, p) implies cluster_memberships@[p] is Some || q1.contains(p as usize) || (q == candidate_idx as int && exists|a: int| 0 <= a < neighbors@.len() && #[trigger] neighbors@[a] == p as usize) by { if !(cluster_memberships@[p] is Some) { if q != candidate_idx as int || m0[q] is Some { assert(m0[q] == Some(current_cluster_id)); assert(q0.contains(p as usize)); let a = choose|a: int| 0 <= a < q0.len() && q0[a] == p as usize; assert(a != 0); assert(q1[a - 1] == p as usize); } else { assert(m0[p] is None && p != candidate_idx as int); assert(neighbors@.contains(p as usize)); let a = choose|a: int| 0 <= a < neighbors@.len() && neighbors@[a] == p as usize; assert(neighbors@[a] == p as usize); } } } }
 //@ insert LOOP after "    search_found[n] = true;" : proof { let q2 = search_queue.q@; assert(q2[q2.len() - 1] == n); assert forall|k: int| 0 <= k < n0 && #[trigger] search_found@[k] implies q2.contains(k as usize) || cluster_memberships@[k] is Some by { if k == n as int { assert(q2[q2.len() - 1] == k as usize); } else if !(cluster_memberships@[k] is Some) { assert(qp.contains(k as usize)); let a = choose|a: int| 0 <= a < qp.len() && qp[a] == k as usize; assert(q2[a] == k as usize); } } assert forall|x: usize| qp.contains(x) implies q2.contains(x) by { let a = choose|a: int| 0 <= a < qp.len() && qp[a] == x; assert(q2[a] == x); } }
